@@ -14,7 +14,7 @@ try:
     if b.stdout.strip():
         print("mutant does not compile:", b.stdout); sys.exit(3)
     r = subprocess.run(["python3", os.path.join(os.path.dirname(__file__), "check.py"), prop, "--tier", tier], capture_output=True, text=True)
-    lines = [l for l in r.stdout.splitlines() if l.startswith(("VIOLATION", "INCONCLUSIVE", "KNOWN", "   harness"))][:6]
+    lines = [l for l in r.stdout.splitlines() if l.startswith(("VIOLATION", "INCONCLUSIVE", "   harness"))][:6]
     print("exit", r.returncode, "|", " || ".join(lines) if lines else r.stdout[-300:])
 finally:
     open(p, "w").write(s)
